@@ -72,10 +72,35 @@ def _set(doc, path, value, delete=False, dup=False):
 _HANGS = mp.Value("i", 0)
 
 
+_DOCS: dict = {}
+
+
+def _materialize(recipe):
+    kind = recipe[0]
+    if kind == "doc":
+        return _DOCS[recipe[1]]
+    if kind == "one":
+        _, name, path, j = recipe
+        if j == "del":
+            return _set(_DOCS[name], path, None, delete=True)
+        if j == "dup":
+            return _set(_DOCS[name], path, None, dup=True)
+        return _set(_DOCS[name], path, JUNK[j])
+    _, name, steps = recipe
+    dd = _DOCS[name]
+    for path, j in steps:
+        try:
+            dd = _set(dd, path, JUNK[j])
+        except (KeyError, IndexError, TypeError):
+            pass
+    return dd
+
+
 def _parse_job(job):
-    doc, label = job
+    recipe, label = job
     if _HANGS.value >= 4:
         return label, None
+    doc = _materialize(recipe)
     data, exc = gen.parse(doc, limit=20)
     if exc == "HANG":
         with _HANGS.get_lock():
@@ -87,9 +112,10 @@ def _generate_job(job):
     """parse AND render (into a scratch directory that is removed at once): crashes of the templates count too."""
     import shutil
     import tempfile
-    doc, label = job
+    recipe, label = job
     if _HANGS.value >= 4:
         return label, None
+    doc = _materialize(recipe)
     out = Path(tempfile.mkdtemp(prefix="c06g-"))
     try:
         r = gen.generate(doc, out / "p", limit=30)
@@ -143,12 +169,15 @@ def corruption(rep, rnd, quick: bool, d: Path) -> None:
                                       {"name": "Gamma", "k": "objinl", "t": ""}, {"name": "Delta", "k": "wrap", "t": "Alpha"}])}
     # mutations of the typed document go through the renderer too
     tdoc = typed_document()
-    gjobs = [(tdoc, "typed:unchanged")]
+    gspecs = [(None, None, "typed:unchanged")]
     for path in _nodes(tdoc):
-        for junk in JUNK:
-            gjobs.append((_set(tdoc, path, junk), f"typed#/{'/'.join(map(str, path))}={json.dumps(junk, default=str)[:40]}"))
-    if quick and len(gjobs) > 1800:
-        gjobs = [gjobs[0]] + rnd.sample(gjobs[1:], 1800)
+        for j, junk in enumerate(JUNK):
+            gspecs.append((path, j, f"typed#/{'/'.join(map(str, path))}={json.dumps(junk, default=str)[:40]}"))
+    if quick and len(gspecs) > 1800:
+        gspecs = [gspecs[0]] + rnd.sample(gspecs[1:], 1800)
+    # jobs are RECIPES (document name + what to replace), materialised inside the workers: the corrupted documents are never all in memory
+    global _DOCS
+    _DOCS = {**small, **docs, "typed": tdoc}
     jobs = []
     for name, doc in {**small, **docs}.items():
         nodes = list(_nodes(doc))
@@ -156,30 +185,23 @@ def corruption(rep, rnd, quick: bool, d: Path) -> None:
         if big:
             nodes = rnd.sample(nodes, (120 if quick else 1500))
         for path in nodes:
-            menu = JUNK if (not big or not quick) else rnd.sample(JUNK, 4)
+            menu = list(range(len(JUNK))) if (not big or not quick) else rnd.sample(range(len(JUNK)), 4)
             if name in small or not quick:
-                menu = JUNK
-            for j, junk in enumerate(menu):
-                jobs.append((_set(doc, path, junk), f"{name}#/{'/'.join(map(str, path))}={json.dumps(junk, default=str)[:40]}"))
+                menu = list(range(len(JUNK)))
+            for j in menu:
+                jobs.append((("one", name, path, j), f"{name}#/{'/'.join(map(str, path))}={json.dumps(JUNK[j], default=str)[:40]}"))
             if path:
-                jobs.append((_set(doc, path, None, delete=True), f"{name}#/{'/'.join(map(str, path))}:deleted"))
-                jobs.append((_set(doc, path, None, dup=True), f"{name}#/{'/'.join(map(str, path))}:duplicated"))
+                jobs.append((("one", name, path, "del"), f"{name}#/{'/'.join(map(str, path))}:deleted"))
+                jobs.append((("one", name, path, "dup"), f"{name}#/{'/'.join(map(str, path))}:duplicated"))
     # random k-subsets on the small documents
     for name, doc in small.items():
         nodes = [p for p in _nodes(doc) if p]
         for _ in range(200 if quick else 3000):
-            dd = doc
-            label = []
-            for path in rnd.sample(nodes, rnd.randint(2, 4)):
-                try:
-                    junk = rnd.choice(JUNK)
-                    dd = _set(dd, path, junk)
-                    label.append("/".join(map(str, path)))
-                except (KeyError, IndexError, TypeError):
-                    pass
-            jobs.append((dd, f"{name}#multi:{'+'.join(label)}"))
+            steps = [(path, rnd.randrange(len(JUNK))) for path in rnd.sample(nodes, rnd.randint(2, 4))]
+            jobs.append((("multi", name, steps), f"{name}#multi:{'+'.join('/'.join(map(str, p)) for p, _ in steps)}"))
     if quick and len(jobs) > 9000:
         jobs = rnd.sample(jobs, 9000)
+    gjobs = [(("one", "typed", path, j), label) if path is not None else (("doc", "typed"), label) for (path, j, label) in gspecs]
     with mp.get_context("fork").Pool(NCPU - 2) as pool:
         res = pool.map(_parse_job, jobs, chunksize=50)
         gres = pool.map(_generate_job, gjobs, chunksize=10)
@@ -187,17 +209,17 @@ def corruption(rep, rnd, quick: bool, d: Path) -> None:
     res = res + gres
     rep.extra["corrupted_documents_rendered"] = len(gjobs)
     sites: dict = {}
-    for (doc, _), (label, exc) in zip(jobs, res):
+    for (recipe, _), (label, exc) in zip(jobs, res):
         rep.count(1, label)
         if exc is not None:
             site = crash_site(exc)
             sites[site] = sites.get(site, 0) + 1
-            rep.violate(f"C06/crash/{site}", f"unhandled exception / hang on a corrupted document ({label})", label=label, exc=exc, doc=doc)
+            rep.violate(f"C06/crash/{site}", f"unhandled exception / hang on a corrupted document ({label})", label=label, exc=exc, doc=_materialize(recipe))
     rep.extra["corrupted_documents"] = len(jobs)
     rep.extra["crash_sites"] = sites
     # traces of a sample of corrupted documents must be behaviours of PipelineTrace (opaque shapes)
     sample = rnd.sample(jobs, 150 if quick else 1500)
-    tdocs = [(doc, None) for doc, _ in sample if isinstance(doc, dict) and isinstance(doc.get("components"), dict)
+    tdocs = [(doc, None) for doc in (_materialize(r) for r, _ in sample) if isinstance(doc, dict) and isinstance(doc.get("components"), dict)
              and isinstance(doc["components"].get("schemas"), dict)]
 
     def law_key(why, adoc):
